@@ -210,6 +210,11 @@ var c04Cases = []vCase{
 	{name: "catch-exited-in-pred", prog: "f(X) :- catch(X = k0, _, X = k1).", query: "f(X), throw(t(X))."},
 	{name: "catch-reactivated-on-backtrack", prog: "q(k0). q(k1). t(X) :- X = k2, throw(late).", query: "catch(q(X), late, R = caught), emit(X), ( X = k3 -> fail ; true )."},
 	{name: "catch-redo-then-throw-inside", prog: "g(k0). g(X) :- X = k1, throw(redo).", query: "catch(g(X), redo, R = caught), X = k2."},
+	{name: "throw-user-error-context-stays-unbound", prog: "", query: "catch(throw(error(k0, _)), error(E, C), true), C = k1."},
+	{name: "throw-user-error-catcher-with-context", prog: "", query: "catch(throw(error(k0, _)), error(k0, here), R = caught)."},
+	{name: "throw-user-error-uncaught", prog: "", query: "throw(error(k0, _))."},
+	{name: "throw-user-error-bound-context", prog: "", query: "catch(throw(error(k0, k1)), error(E, k2), R = inner)."},
+	{name: "throw-user-error-nested-selects-inner", prog: "", query: "catch(catch(throw(error(k0, _)), error(k0, ctx), R = inner), _, R = outer)."},
 	{name: "catch-builtin-error-type", prog: "", query: "catch(X is foo + 1, error(type_error(T, C), _), true)."},
 	{name: "catch-builtin-error-inst", prog: "", query: "catch(X is _ + 1, error(E, _), true)."},
 	{name: "catch-unknown-proc", prog: "", query: "catch(nosuch(k0), error(existence_error(procedure, PI), _), true)."},
